@@ -15,6 +15,7 @@ from pyvc.unit import unit
 from pyvc.proxies import And, Or, Not, Implies
 
 LEVEL = "proof"
+STANDIN_ALWAYS_THOROUGH = True      # its large bound takes seconds: used at both tiers
 EXPLANATION = ("Exhaustive finite case analysis on the real HTTP1Connection._can_keep_alive / write_headers / finish / _finish_request "
                "(version x Connection option spellings x method x request framing x no_keep_alive x response status x response framing x "
                "request-body-read): persistence decision equals the statement's spec function; undelimited bodies force close; close is "
